@@ -187,9 +187,18 @@ func main() {
 		sb = &hlib.StdBuild{Scratch: filepath.Join(dev, "repo"), BinDir: filepath.Join(dev, "bin"),
 			Snapshot: filepath.Join(dev, "repo", "release", "c", "wuffs-unsupported-snapshot.c"), Cleanup: func() { os.RemoveAll(filepath.Join(dev, "c10")) }}
 	} else {
-		sb, err = hlib.GenStd(r.Repo)
-		if err != nil {
-			fatal("GenStd: %v", err)
+		// Other checks mutate /repo while they self-test; a regeneration that
+		// fails is retried a few times before giving up.
+		for attempt := 0; ; attempt++ {
+			sb, err = hlib.GenStd(r.Repo)
+			if err == nil {
+				break
+			}
+			if attempt == 3 {
+				fatal("GenStd: %v", err)
+			}
+			r.Note(fmt.Sprintf("GenStd attempt %d failed (%s); retrying", attempt+1, firstLine(err.Error())))
+			time.Sleep(75 * time.Second)
 		}
 	}
 	defer sb.Cleanup()
@@ -243,9 +252,12 @@ func main() {
 		return j
 	}
 	type cfg struct{ cc, opt string }
-	cfgs := []cfg{{"gcc", "-O2"}}
+	// gcc -O0 is in the quick tier too: an optimiser proves a never-written
+	// `static` table read-only and hides it in .rodata; -O0 shows what the
+	// source says.
+	cfgs := []cfg{{"gcc", "-O2"}, {"gcc", "-O0"}}
 	if r.Thorough {
-		cfgs = append(cfgs, cfg{"gcc", "-O0"}, cfg{"gcc", "-O3"})
+		cfgs = append(cfgs, cfg{"gcc", "-O3"})
 		if _, err := exec.LookPath("clang"); err == nil {
 			cfgs = append(cfgs, cfg{"clang", "-O2"}, cfg{"clang", "-O0"})
 		} else {
@@ -256,6 +268,9 @@ func main() {
 	wholePlain := map[cfg]*job{}
 	var wholeStatic, wholeNoPic *job
 	for _, c := range cfgs {
+		if !r.Thorough && c.opt == "-O0" {
+			continue // quick: modules only at -O0
+		}
 		wholePlain[c] = mk("ALL", c.cc, c.opt, nil, nil, true)
 	}
 	wholeStatic = mk("ALL-STATIC", "gcc", "-O2", []string{"WUFFS_CONFIG__STATIC_FUNCTIONS"}, nil, true)
@@ -310,7 +325,9 @@ func main() {
 	}
 	wholes := []*job{wholeStatic, wholeNoPic}
 	for _, c := range cfgs {
-		wholes = append(wholes, wholePlain[c])
+		if wholePlain[c] != nil {
+			wholes = append(wholes, wholePlain[c])
+		}
 	}
 	for _, j := range wholes {
 		for _, u := range j.info.Undef {
@@ -536,6 +553,14 @@ func declTie(r *hlib.Run, s *pkgSum, csrc string, label string) []cDecl {
 			}
 		}
 	}
+	for _, d := range ds {
+		if d.Kind == "l" {
+			r.Count("decl:function-local-static")
+			if !d.Const {
+				r.Fail("nonconst-local-static:"+s.Name+":"+d.Name, fmt.Sprintf("generated C defines function-local static %s without const (line %d)", d.Name, d.Line), label)
+			}
+		}
+	}
 	r.Op(s.opLine(), canon)
 	r.Nontrivial("decls:" + canon)
 	r.Count("decls-op")
@@ -569,6 +594,12 @@ func checkBase(r *hlib.Run, sb *hlib.StdBuild, mj map[string]*job, mods []string
 	for _, d := range all {
 		if d.Kind == "f" && d.Def && d.Linkage == "maybe_static" {
 			maybeStatic[d.Name] = true
+		}
+		if d.Kind == "l" {
+			r.Count("decl:base-function-local-static")
+			if !d.Const {
+				r.Fail("nonconst-local-static:base:"+d.Name, fmt.Sprintf("base defines function-local static %s without const (wuffs-base.c line %d): writable data in unoptimised builds", d.Name, d.Line), "gen/c/wuffs-base.c")
+			}
 		}
 		if d.Kind == "o" && d.Def && strings.HasPrefix(strings.ToLower(d.Name), "wuffs_") {
 			r.Count("decl:base-object")
